@@ -179,6 +179,23 @@ def check_stream(chk, prog, sim, name):
                         chk.violation("C10.value", "%s:lossy:%d" % (key, k), "%s: the value graph contains a truncating integer operation %r (nanoseconds are divided/truncated before the conversion to seconds)" % (name, lossy[0]),
                                       fn=up["pretty"], file=loc(up["span"]))
                         ok = False
+                    # conditioning of the difference quotients (see numkit.scaled_absolutes): only for components that are invariant under a
+                    # common offset of all samples
+                    comp_terms = {"value": payload.fields[0]} if "value" in ref else dict(zip([f["name"] for f in prog.adt_by_name("State")["variants"][0]["fields"]], payload.fields))
+                    samples = [v(t) for t in TAGS]
+                    off = A.sym("__offset")
+                    for comp, e in ref.items():
+                        try:
+                            invariant = A.equal(e.subs({x: x + off for x in samples}, simultaneous=True), e)
+                        except Exception:
+                            invariant = False
+                        if invariant:
+                            sc = N.scaled_absolutes(comp_terms[comp], lambda nm: nm.startswith("v") and nm[1:] in TAGS)
+                            if sc:
+                                chk.violation("C10.value", "%s:conditioning:%s" % (key, comp), "%s: %s is a difference quotient, but the value graph scales an absolute sample before differencing (%r): "
+                                              "the rounding error then grows with |sample| / dt instead of with the difference (catastrophic cancellation for samples large compared with their change per step)"
+                                              % (name, comp, sc[0]), fn=up["pretty"], file=loc(up["span"]))
+                                ok = False
                     for comp, e in ref.items():
                         if not A.equal(got[comp], e):
                             chk.violation("C10.value", "%s:%s:%d" % (key, comp, k), "%s: %s after %d samples is %s, expected %s" % (name, comp, k, A.show(got[comp]), A.show(e)),
